@@ -19,13 +19,20 @@
 #include <upipe/urequest.h>
 #include <stdlib.h>
 
+/* "arbitrary" answers of the stubs: each one is assigned to gs_vsc so that a counterexample trace carries
+ * it (assignments to gs_vsc, in call order); the native replay reads them back in the same order
+ * (snapshot keys vsc#<k>) — the replayed execution makes the same choices in the same order */
+static unsigned long long gs_vsc;
 #ifdef VNATIVE
-/* native replay: "arbitrary" answers of the stubs are read from the snapshot (zero if absent) */
-static inline unsigned long long vs_choice(const char *name) { unsigned long long v = 0; vn_read(name, &v, sizeof(v)); return v; }
-#define VS_CHOICE(name) vs_choice(#name)
+static inline unsigned long long vs_choice(void)
+{
+    static int k; char key[64]; snprintf(key, sizeof(key), "vsc#%d", k++);
+    unsigned long long v = 0; vn_read_quiet(key, &v, sizeof(v)); return v;
+}
+#define VS_CHOICE(name) (gs_vsc = vs_choice())
 #else
 unsigned long long nondet_vs_choice(void);
-#define VS_CHOICE(name) nondet_vs_choice()
+#define VS_CHOICE(name) (gs_vsc = nondet_vs_choice())
 #endif
 
 /* ------------------------------------------------------------------ probe */
@@ -57,6 +64,27 @@ static void vs_probe_reset(void)
 }
 
 /* ------------------------------------------------------------------ uref / udict managers */
+#ifndef VSTUB_NO_UDICT_INLINE
+/* only the (const) shorthand table of the real inline manager is used: base type of each shorthand */
+#include "lib/upipe/udict_inline.c"
+#endif
+/* size a well-formed dictionary reports for an attribute of this type; (size_t)-1: variable */
+static size_t vs_attr_size(enum udict_type type)
+{
+    enum udict_type base = type;
+    if (type > UDICT_TYPE_SHORTHAND) {
+        size_t idx = type - UDICT_TYPE_SHORTHAND - 1;
+        if (idx < sizeof(inline_shorthands) / sizeof(inline_shorthands[0]))
+            base = inline_shorthands[idx].base_type;
+    }
+    switch (base) {
+    case UDICT_TYPE_VOID: return 0;
+    case UDICT_TYPE_BOOL: case UDICT_TYPE_SMALL_UNSIGNED: case UDICT_TYPE_SMALL_INT: return 1;
+    case UDICT_TYPE_UNSIGNED: case UDICT_TYPE_INT: case UDICT_TYPE_FLOAT: return 8;
+    case UDICT_TYPE_RATIONAL: return 16;
+    default: return (size_t)-1;
+    }
+}
 struct vs_udict { struct udict udict; int def_id; };
 static int gs_udict_live, gs_uref_live, gs_uref_freed;
 static struct uref *gs_uref_last_freed;
@@ -98,9 +126,16 @@ static int stub_udict_control(struct udict *udict, int command, va_list args)
         enum udict_type type = va_arg(args, enum udict_type);
         size_t *size_p = va_arg(args, size_t *);
         const uint8_t **attr_p = va_arg(args, const uint8_t **);
-        (void)name; (void)type;
+        (void)name;
         if (VS_CHOICE(udict_get_absent) & 1) return UBASE_ERR_INVALID;
-        if (size_p) *size_p = VS_CHOICE(udict_get_size) % (sizeof(gs_attr_buf) + 1);
+        size_t sz = vs_attr_size(type);
+        { uint64_t lo = VS_CHOICE(attr_lo), hi = VS_CHOICE(attr_hi);      /* the value: 16 arbitrary octets */
+          for (int i = 0; i < 8; i++) { gs_attr_buf[i] = (uint8_t)(lo >> (8 * i)); gs_attr_buf[8 + i] = (uint8_t)(hi >> (8 * i)); } }
+        if (sz == (size_t)-1) {          /* string / opaque: any small size; strings are terminated */
+            sz = 1 + VS_CHOICE(udict_get_size) % sizeof(gs_attr_buf);
+            gs_attr_buf[sz - 1] = 0;
+        }
+        if (size_p) *size_p = sz;
         if (attr_p) *attr_p = gs_attr_buf;
         return UBASE_ERR_NONE;
     }
@@ -120,7 +155,9 @@ static int stub_udict_control(struct udict *udict, int command, va_list args)
         return UBASE_ERR_UNHANDLED;
     }
 }
-static struct udict_mgr gs_udict_mgr = { NULL, stub_udict_alloc, stub_udict_control, stub_udict_free, NULL };
+/* udict_control_va() only dispatches when the manager has a udict_mgr_control (as every real manager does) */
+static int stub_udict_mgr_control(struct udict_mgr *mgr, int command, va_list args) { return UBASE_ERR_UNHANDLED; }
+static struct udict_mgr gs_udict_mgr = { NULL, stub_udict_alloc, stub_udict_control, stub_udict_free, stub_udict_mgr_control };
 
 static struct uref_mgr gs_uref_mgr;
 static struct uref *stub_uref_alloc(struct uref_mgr *mgr)
@@ -233,7 +270,7 @@ static void vs_reset_all(void)
 {
     gs_probe.refcount = NULL; gs_probe.uprobe_throw = stub_probe_throw; gs_probe.next = NULL;
     gs_udict_mgr.refcount = NULL; gs_udict_mgr.udict_alloc = stub_udict_alloc; gs_udict_mgr.udict_control = stub_udict_control;
-    gs_udict_mgr.udict_free = stub_udict_free; gs_udict_mgr.udict_mgr_control = NULL;
+    gs_udict_mgr.udict_free = stub_udict_free; gs_udict_mgr.udict_mgr_control = stub_udict_mgr_control;
     gs_uref_mgr.refcount = NULL; gs_uref_mgr.control_attr_size = 0; gs_uref_mgr.udict_mgr = &gs_udict_mgr;
     gs_uref_mgr.uref_alloc = stub_uref_alloc; gs_uref_mgr.uref_free = stub_uref_free; gs_uref_mgr.uref_mgr_control = NULL;
     gs_out_mgr.refcount = NULL; gs_out_mgr.signature = 0x6f757430; gs_out_mgr.upipe_err_str = NULL;
